@@ -87,7 +87,7 @@ func typedDefs(repo string) (map[string]string, error) {
 	if err != nil {
 		return nil, err
 	}
-	re := regexp.MustCompile(`(?m)^\s*genny\s+-in=types/gen/template\.go\s+-out=types/(\w+)/generated\.go\s+-pkg=(\w+)\s+gen\s+'ObjectType=([^']+)'`)
+	re := regexp.MustCompile(`(?m)^\s*\S*genny\S*\s+-in=\S*types/gen/template\.go\s+-out=\S*types/(\w+)/generated\.go\s+-pkg=(\w+)\s+gen\s+['"]ObjectType=([^'"]+)['"]`)
 	out := map[string]string{}
 	for _, m := range re.FindAllStringSubmatch(string(mk), -1) {
 		if m[1] != m[2] {
@@ -188,7 +188,7 @@ func joinDefs(repo string) ([][6]string, error) {
 	if err != nil {
 		return nil, err
 	}
-	re := regexp.MustCompile(`(?m)^\s*\./join/gen/gen\s+(\S+)\s+(\S+)\s+'([^']+)'\s+(\S+)\s+(\S+)\s*>\s*\./join/(\S+)`)
+	re := regexp.MustCompile(`(?m)^\s*\S*join/gen/gen\s+(\S+)\s+(\S+)\s+['"]([^'"]+)['"]\s+(\S+)\s+(\S+)\s*>\s*\S*join/(generated_\w+\.go)`)
 	var out [][6]string
 	for _, m := range re.FindAllStringSubmatch(string(mk), -1) {
 		out = append(out, [6]string{m[1], m[2], m[3], m[4], m[5], m[6]})
